@@ -34,7 +34,16 @@ class CrossPlatformSafeTemporaryNamedFile:
         # Generate a random temporary file name
         self._filename = self._create_filename()
         # Ensure the file is created
-        open(self._filename, mode="w").close()
+        try:
+            open(self._filename, mode="w").close()
+        except BaseException:
+            # creating the file can fail after it has taken effect (close() reporting
+            # an error): __exit__ will not run, so nothing else would remove the file
+            try:
+                os.remove(self._filename)
+            except OSError:
+                pass
+            raise
         # Open the file in the given mode
         return self._filename
 
